@@ -39,11 +39,24 @@ pub fn c01(rng: &mut impl Rng, len: usize) -> Vec<Value> {
                 "thr": pick(rng, &thr), "I": pick(rng, &intervals)}));
         }
     }
+    // now and then a memory-adaptive rule: its threshold moves with the collected memory usage
+    // (water marks 1024 apart and readings on multiples of 128, so the interpolation is exact in f64)
+    let with_mem = rng.gen_range(0..5) == 0;
+    let mlw = 1024 * rng.gen_range(1..=3u64);
+    if with_mem {
+        k += 1;
+        rules.push(json!({"id": format!("f{}", k), "res": "r1", "thr": [1, 1], "I": *pick(rng, &[0u64, 1000, 2000]), "calc": "mem",
+            "lmu": *pick(rng, &[4u64, 8, 10]), "hmu": *pick(rng, &[1u64, 2, 3]), "mlw": mlw, "mhw": mlw + 1024}));
+    }
     let max_iv = rules.iter().map(|r| r["I"].as_u64().unwrap()).max().unwrap().max(1000);
     evs.push(json!({"e": "load", "fam": "flow", "op": "all", "t": t, "rules": rules}));
     let mut open: Vec<u64> = Vec::new();
     let mut id = 0;
     for _ in 0..len {
+        if with_mem && rng.gen_range(0..4) == 0 {
+            let v = *pick(rng, &[0u64, mlw - 1, mlw, mlw + 128, mlw + 512, mlw + 896, mlw + 1024, mlw + 1025, 1_000_000]);
+            evs.push(json!({"e": "sysmem", "v": v, "t": t}));
+        }
         let rule = pick(rng, &rules).clone();
         let iv = rule["I"].as_u64().unwrap();
         let l = if iv == 700 || iv == 250 || iv == 20000 { iv } else { 500 };
